@@ -178,6 +178,18 @@ C07_SITES = [
 ('thompsonSyncSA', 'include/AIToolbox/MDP/ThompsonModel.hpp', 'void\\s+ThompsonModel<E>::sync\\s*\\(\\s*const\\s+size_t\\s+s\\s*,\\s*const\\s+size_t\\s+a\\s*\\)\\s*\\{', '{ifconstexpr(IsExperienceEigen<E>&&requires{experience_.getVisitsTable(a).row(s).array();}){sampleDirichletDistribution(experience_.getVisitsTable(a).row(s).array().templatecast<double>()+0.5,rand_,transitions_[a].row(s));}else{doublesum=0.0;for(size_ts1=0;s1<S;++s1){std::gamma_distribution<double>dist(experience_.getVisits(s,a,s1)+0.5,1.0);transitions_[a](s,s1)=dist(rand_);sum+=transitions_[a](s,s1);}transitions_[a].row(s)/=sum;}constautovisits=experience_.getVisitsSum(s,a);constautoMLEReward=experience_.getReward(s,a);constautoM2=experience_.getM2(s,a);if(visits<2){rewards_(s,a)=MLEReward;}else{std::student_t_distribution<double>dist(visits-1);rewards_(s,a)=MLEReward+dist(rand_)*std::sqrt(M2/(visits*(visits-1)));}}'),
 ('thompsonSync', 'include/AIToolbox/MDP/ThompsonModel.hpp', 'void\\s+ThompsonModel<E>::sync\\s*\\(\\s*\\)\\s*\\{', '{for(size_ta=0;a<A;++a)for(size_ts=0;s<S;++s)sync(s,a);}'),
 ('coopTSSync', 'src/Factored/MDP/CooperativeThompsonModel.cpp', 'void\\s+CooperativeThompsonModel::sync\\s*\\(\\s*\\)\\s*\\{', '{constauto&S=experience_.getS();for(size_ti=0;i<S.size();++i){for(size_tj=0;j<getGraph().getSize(i);++j){syncRow(i,j);}}}'),
+('denseMLCtor', 'include/AIToolbox/MDP/MaximumLikelihoodModel.hpp', 'MaximumLikelihoodModel<E>::MaximumLikelihoodModel\\s*\\([^)]*\\)\\s*:[^{]*\\{', '{setDiscount(discount);rewards_.setZero();for(size_ta=0;a<A;++a)transitions_[a].setIdentity();if(toSync)sync();}'),
+('denseMLSync', 'include/AIToolbox/MDP/MaximumLikelihoodModel.hpp', 'void\\s+MaximumLikelihoodModel<E>::sync\\s*\\(\\s*\\)\\s*\\{', '{for(size_ta=0;a<A;++a)for(size_ts=0;s<S;++s)sync(s,a);}'),
+('denseMLSyncSA', 'include/AIToolbox/MDP/MaximumLikelihoodModel.hpp', 'void\\s+MaximumLikelihoodModel<E>::sync\\s*\\(\\s*const\\s+size_t\\s+s\\s*,\\s*const\\s+size_t\\s+a\\s*\\)\\s*\\{', '{constautovisitSum=experience_.getVisitsSum(s,a);if(visitSum==0ul)return;rewards_(s,a)=experience_.getReward(s,a);constdoublevisitSumReciprocal=1.0/visitSum;ifconstexpr(IsExperienceEigen<E>){transitions_[a].row(s)=experience_.getVisitsTable(a).row(s).templatecast<double>()*visitSumReciprocal;}else{for(size_ts1=0;s1<S;++s1){constautovisits=experience_.getVisits(s,a,s1);transitions_[a](s,s1)=static_cast<double>(visits)*visitSumReciprocal;}}}'),
+('denseMLSyncInc', 'include/AIToolbox/MDP/MaximumLikelihoodModel.hpp', 'void\\s+MaximumLikelihoodModel<E>::sync\\s*\\(\\s*const\\s+size_t\\s+s\\s*,\\s*const\\s+size_t\\s+a\\s*,\\s*const\\s+size_t\\s+s1\\s*\\)\\s*\\{', '{constautovisitSum=experience_.getVisitsSum(s,a);if(!(visitSum%PERIODul))returnsync(s,a);rewards_(s,a)=experience_.getReward(s,a);if(visitSum==1ul){transitions_[a].row(s).setZero();transitions_[a](s,s1)=1.0;}else{constdoublenewVisits=static_cast<double>(experience_.getVisits(s,a,s1));constdoublenewTransitionValue=newVisits/static_cast<double>(visitSum-1);constdoublenewVectorSum=1.0+(newTransitionValue-transitions_[a](s,s1));transitions_[a](s,s1)=newTransitionValue;transitions_[a].row(s)/=newVectorSum;}}'),
+('denseMLGetTP', 'include/AIToolbox/MDP/MaximumLikelihoodModel.hpp', 'double\\s+MaximumLikelihoodModel<E>::getTransitionProbability\\s*\\([^)]*\\)\\s*const\\s*\\{', '{returntransitions_[a](s,s1);}'),
+('denseMLGetER', 'include/AIToolbox/MDP/MaximumLikelihoodModel.hpp', 'double\\s+MaximumLikelihoodModel<E>::getExpectedReward\\s*\\([^)]*\\)\\s*const\\s*\\{', '{returnrewards_(s,a);}'),
+('sparseMLCtor', 'include/AIToolbox/MDP/SparseMaximumLikelihoodModel.hpp', 'SparseMaximumLikelihoodModel<E>::SparseMaximumLikelihoodModel\\s*\\([^)]*\\)\\s*:[^{]*\\{', '{setDiscount(discount);if(toSync){sync();for(size_ta=0;a<A;++a){for(size_ts=0;s<S;++s)if(experience_.getVisitsSum(s,a)==0ul)transitions_[a].insert(s,s)=1.0;}}else{for(size_ta=0;a<A;++a)transitions_[a].setIdentity();}}'),
+('sparseMLSync', 'include/AIToolbox/MDP/SparseMaximumLikelihoodModel.hpp', 'void\\s+SparseMaximumLikelihoodModel<E>::sync\\s*\\(\\s*\\)\\s*\\{', '{for(size_ta=0;a<A;++a)for(size_ts=0;s<S;++s)sync(s,a);}'),
+('sparseMLSyncSA', 'include/AIToolbox/MDP/SparseMaximumLikelihoodModel.hpp', 'void\\s+SparseMaximumLikelihoodModel<E>::sync\\s*\\(\\s*const\\s+size_t\\s+s\\s*,\\s*const\\s+size_t\\s+a\\s*\\)\\s*\\{', '{constautovisitSum=experience_.getVisitsSum(s,a);if(visitSum==0ul)return;if(rewards_.coeff(s,a)!=experience_.getReward(s,a))rewards_.coeffRef(s,a)=experience_.getReward(s,a);if(visitSum==1ul)transitions_[a].coeffRef(s,s)=0.0;constdoublevisitSumReciprocal=1.0/visitSum;ifconstexpr(IsExperienceEigen<E>&&requires{transitions_[a].row(s)=experience_.getVisitsTable(a).row(s).templatecast<double>()*visitSumReciprocal;}){transitions_[a].row(s)=experience_.getVisitsTable(a).row(s).templatecast<double>()*visitSumReciprocal;}else{transitions_[a].row(s)*=0.0;for(size_ts1=0;s1<S;++s1){constautovisits=experience_.getVisits(s,a,s1);if(visits>0)transitions_[a].coeffRef(s,s1)=static_cast<double>(visits)*visitSumReciprocal;}}}'),
+('sparseMLSyncInc', 'include/AIToolbox/MDP/SparseMaximumLikelihoodModel.hpp', 'void\\s+SparseMaximumLikelihoodModel<E>::sync\\s*\\(\\s*const\\s+size_t\\s+s\\s*,\\s*const\\s+size_t\\s+a\\s*,\\s*const\\s+size_t\\s+s1\\s*\\)\\s*\\{', '{constautovisitSum=experience_.getVisitsSum(s,a);if(!(visitSum%PERIODul))returnsync(s,a);if(rewards_.coeff(s,a)!=experience_.getReward(s,a))rewards_.coeffRef(s,a)=experience_.getReward(s,a);if(visitSum==1ul){transitions_[a].row(s)*=0.0;transitions_[a].coeffRef(s,s1)=1.0;}else{constdoublenewVisits=static_cast<double>(experience_.getVisits(s,a,s1));constdoublenewTransitionValue=newVisits/static_cast<double>(visitSum-1);constdoublenewVectorSum=1.0+(newTransitionValue-transitions_[a].coeff(s,s1));transitions_[a].coeffRef(s,s1)=newTransitionValue;transitions_[a].row(s)/=newVectorSum;}}'),
+('sparseMLGetTP', 'include/AIToolbox/MDP/SparseMaximumLikelihoodModel.hpp', 'double\\s+SparseMaximumLikelihoodModel<E>::getTransitionProbability\\s*\\([^)]*\\)\\s*const\\s*\\{', '{returntransitions_[a].coeff(s,s1);}'),
+('sparseMLGetER', 'include/AIToolbox/MDP/SparseMaximumLikelihoodModel.hpp', 'double\\s+SparseMaximumLikelihoodModel<E>::getExpectedReward\\s*\\([^)]*\\)\\s*const\\s*\\{', '{returnrewards_.coeff(s,a);}'),
 ]
 
 BN = 'src/Factored/Utils/BayesianNetwork.cpp'
@@ -189,7 +201,8 @@ PUSH_TAIL = ('parents_.emplace_back(std::move(parents));auto&newParents=parents_
 def _norm_body(src, pat, what):
     m = X.find1(pat, src, what, re.S)
     blk, _ = block_after(src, m.end() - 1)
-    return re.sub(r'\s+', '', blk), X.lineno(src, m.start())
+    # the resync period is extracted on its own (Gen/Constants) and the theorems hold for every period: not part of the pinned text
+    return re.sub(r'%\d+ul', '%PERIODul', re.sub(r'\s+', '', blk)), X.lineno(src, m.start())
 
 
 def gen_c07_sites():
